@@ -4,9 +4,11 @@ from cfgcommon import COMMON_ASSUME
 CFG = {
 "level": "model_checking",
 "engine": "enum",
-"technique": "bounded-exhaustive enumeration of the constructors' parameter grids; every mesh judged by an independent solid oracle (tolerance merge of coincident positions, directed-edge pairing, per-face outward test, closed-form volumes of the inscribed polyhedra, inscribedness, vertex normals)",
-"jobs": [{"variant": "plain-c18", "id": "C18"}],
-"level_text": "Every UVSphere / UVSphereUnwelded / Hemisphere.UV with rows 2..12 x cols 3..16 (thorough: 2..24 x 3..32), every capped Cylinder with 3..24 sides (thorough: 3..64) x 6 UV options, Cube.Welded / UnweldedQuads over {0.5,1,3}^3 x 9 UV options (none, default, empty, each single face), each x 3 radii / 3 heights (thorough: 5 / 4 incl. non-dyadic values), plus doubling ladders up to 64x128 and 128 sides (thorough: 128x256, 512 sides) is built by the real constructor and compared with the reference: closed + consistently oriented after merging coincident positions, every face facing away from an interior point, signed volume equal to the frustum-sum / prism / box closed form to 1e-9 relative, every vertex on the analytic surface, supplied normals on the outer side of every incident face, volumes strictly increasing towards the analytic volume along the ladder. Exhaustive inside these grids, nothing claimed outside.",
+"technique": "bounded-exhaustive enumeration of the constructors' parameter grids (plus stateless exploration of pairs of concurrent constructor calls under the controlled scheduler, ThreadSanitizer per schedule); every mesh judged by an independent solid oracle (tolerance merge of coincident positions, directed-edge pairing, per-face outward test, closed-form volumes of the inscribed polyhedra, inscribedness, vertex normals)",
+"engines": ["enum", "sched"],
+"jobs": [{"variant": "plain-c18", "id": "C18", "share": 0.6},
+         {"variant": "sched-twin", "id": "C18T", "env": {"GORACE": "log_path={WORK}/race/c18t halt_on_error=0 history_size=2"}, "no_ulimit": True, "share": 0.4}],
+"level_text": "Every UVSphere / UVSphereUnwelded / Hemisphere.UV with rows 2..12 x cols 3..16 (thorough: 2..24 x 3..32), every capped Cylinder with 3..24 sides (thorough: 3..64) x 6 UV options, Cube.Welded / UnweldedQuads over {0.5,1,3}^3 x 9 UV options (none, default, empty, each single face), each x 3 radii / 3 heights (thorough: 5 / 4 incl. non-dyadic values), plus doubling ladders up to 64x128 and 128 sides (thorough: 128x256, 512 sides) is built by the real constructor and compared with the reference: closed + consistently oriented after merging coincident positions, every face facing away from an interior point, signed volume equal to the frustum-sum / prism / box closed form to 1e-9 relative, every vertex on the analytic surface, supplied normals on the outer side of every incident face, volumes strictly increasing towards the analytic volume along the ladder. Exhaustive inside these grids, nothing claimed outside. Concurrent twins (C18T): for every constructor three parameter choices (a larger solid first, with and without UV options) and five calls across constructors, every pair A || B in two goroutines (each call twice per goroutine) on the build-time instrumented code under the controlled scheduler: every interleaving at synchronisation operations up to preemption bound 2 (thorough 3), ThreadSanitizer attributed per schedule; each result must equal the result of the same call made alone.",
 "level_note": "Trusted: the closed forms and the edge-pairing oracle in harness/props/c18. Hemisphere: the volume is accepted for either ring convention (uniform steps, or the as-built one whose last band spans two steps); Capped:false and hemisphere normals are outside the statement and only reported. Pipes (NoTop/NoBottom) are open by design and not enumerated.",
 "rule": "one evaluation = one constructor call judged by the whole oracle; non-trivial when the constructor returned at least one face; distinct by (constructor, rows, cols, sides, radius, height, width, depth, UV option, capped)",
 "assumptions": COMMON_ASSUME + ["vertex placement depends on the counts and scales linearly with radius/height, so the grids of counts x a few magnitudes decide the index patterns (pole fans, seam wrap, cap orientation)"],
